@@ -8,19 +8,25 @@ CNeg1 == -1
 CNeg2 == -2
 None == <<>>
 
+\* thorough tier: Deep <- DeepOn in the cfg (more data shapes: leading / trailing / interior gaps, constants, a second smoothing weight)
+Deep == FALSE
+DeepOn == TRUE
 DataSets == {<<1, 3, 2>>, <<2, 4, 6>>, <<1, NaN, 3, 0>>, <<3, 1, 2, 2>>, <<0, 2, NaN, NaN, 5>>, <<2, 1, 4, 0, 3>>, <<1, 2, 3, 4, 5>>}
+            \cup (IF Deep THEN {<<NaN, 2, 5, 1>>, <<4, 0, 1, NaN>>, <<2, 2, 2, 2>>, <<5, NaN, 1>>, <<0, 3, 1, 4, 2>>, <<NaN, 1, NaN, 3, 2>>,
+                                <<3, 0, NaN, 2, NaN>>, <<1, 4>>, <<4, 1, 0, 3, 2>>} ELSE {})
+Lams == IF Deep THEN {1, 2, 4} ELSE {1, 4}
 \* a constraint is <<position, value>> or None; positions are period numbers (data start at 0)
 Levs(nd) == {None, <<0, 2>>, <<nd - 1, 4>>, <<CNeg1, 1>>, <<nd, 3>>, <<1, 0>>}
 Chgs(nd) == {None, <<1, 1>>, <<nd - 1, CNeg1>>, <<nd, 2>>, <<0, 5>>}
-Spans(nd) == {None, <<1, nd - 2>>, <<CNeg1, nd>>, <<0, nd + 1>>, <<CNeg2, 1>>}
+Spans(nd) == {sp \in {None, <<1, nd - 2>>, <<CNeg1, nd>>, <<0, nd + 1>>, <<CNeg2, 1>>} : IF sp = None THEN TRUE ELSE sp[1] <= sp[2]}
 
 Min2(a, b) == IF a <= b THEN a ELSE b
 Max2(a, b) == IF a >= b THEN a ELSE b
-\* filter span: hull of the data, the constraints and the requested span
-Lo(s) == LET nd == Len(s.data) IN
-         Min2(Min2(0, IF s.lev = None THEN 0 ELSE s.lev[1]), Min2(IF s.chg = None THEN 0 ELSE s.chg[1], IF s.span = None THEN 0 ELSE s.span[1]))
-Hi(s) == LET nd == Len(s.data) IN
-         Max2(Max2(nd - 1, IF s.lev = None THEN 0 ELSE s.lev[1]), Max2(IF s.chg = None THEN 0 ELSE s.chg[1], IF s.span = None THEN 0 ELSE s.span[2]))
+\* filter span: hull of the observed data (a series does not store leading / trailing missing values), the constraints and the requested span
+DLo(s) == CHOOSE t \in 0..(Len(s.data) - 1) : s.data[t + 1] # NaN /\ \A u \in 0..(t - 1) : s.data[u + 1] = NaN
+DHi(s) == CHOOSE t \in 0..(Len(s.data) - 1) : s.data[t + 1] # NaN /\ \A u \in (t + 1)..(Len(s.data) - 1) : s.data[u + 1] = NaN
+Lo(s) == Min2(Min2(DLo(s), IF s.lev = None THEN DLo(s) ELSE s.lev[1]), Min2(IF s.chg = None THEN DLo(s) ELSE s.chg[1], IF s.span = None THEN DLo(s) ELSE s.span[1]))
+Hi(s) == Max2(Max2(DHi(s), IF s.lev = None THEN DHi(s) ELSE s.lev[1]), Max2(IF s.chg = None THEN DHi(s) ELSE s.chg[1], IF s.span = None THEN DHi(s) ELSE s.span[2]))
 Prob(s) == LET lo == Lo(s) hi == Hi(s) nd == Len(s.data) IN
     [y   |-> [i \in 1..(hi - lo + 1) |-> LET t == lo + i - 1 IN IF t >= 0 /\ t < nd THEN s.data[t + 1] ELSE NaN],
      lev |-> [i \in 1..(hi - lo + 1) |-> IF s.lev # None /\ s.lev[1] = lo + i - 1 THEN s.lev[2] ELSE NaN],
@@ -28,13 +34,13 @@ Prob(s) == LET lo == Lo(s) hi == Hi(s) nd == Len(s.data) IN
      chg |-> [i \in 1..(hi - lo + 1) |-> IF s.chg # None /\ s.chg[1] = lo + i - 1 /\ i >= 2 THEN s.chg[2] ELSE NaN],
      lam |-> s.lam, lo |-> lo]
 
-Init == sc \in {[kind |-> "head", data |-> d, lam |-> l] : d \in DataSets, l \in {1, 4}} /\ out = <<>> /\ done = FALSE
+Init == sc \in {[kind |-> "head", data |-> d, lam |-> l] : d \in DataSets, l \in Lams} /\ out = <<>> /\ done = FALSE
 Pick == /\ sc.kind = "head" /\ UNCHANGED <<out, done>>
         /\ \E lv \in Levs(Len(sc.data)), cg \in Chgs(Len(sc.data)), sp \in Spans(Len(sc.data)), lg \in BOOLEAN :
              /\ (lg => (\A i \in 1..Len(sc.data) : IF sc.data[i] = NaN THEN TRUE ELSE sc.data[i] >= 0))
              /\ \E nx \in {[kind |-> "hp", data |-> sc.data, lam |-> sc.lam, lev |-> lv, chg |-> cg, span |-> sp, log |-> lg]} :
                   \* TLC integers are 32-bit: keep the KKT system small enough for fraction-free elimination
-                  /\ (Hi(nx) - Lo(nx) + 1) + (IF lv = None THEN 0 ELSE 1) + (IF cg = None THEN 0 ELSE 1) <= (IF sc.lam = 1 THEN 7 ELSE 6)
+                  /\ (Hi(nx) - Lo(nx) + 1) + (IF lv = None THEN 0 ELSE 1) + (IF cg = None THEN 0 ELSE 1) <= (IF sc.lam = 1 THEN 7 ELSE 6)      \* (also for lam = 2)
                   /\ sc' = nx
 Compute == /\ sc.kind = "hp" /\ ~done /\ done' = TRUE /\ UNCHANGED sc
            /\ \E P \in {Prob(sc)} : \E s \in {HpSolve(P)} :
